@@ -10,21 +10,25 @@ TABLE = {
      number of blocks; c chunks cost at most c-1 more;
    * C04_reject_spans: a segment closed by a rejection spans more than 2*eps ranks (starts apart);
    * C04_cert4_sound / C04_line_ok_sound: the run-time judge's certificate checkers are sound.
-   Not proved here (see DESIGN.md 6.4): the closed-form count bound floor(n/(2eps+1))+c+1, and the
-   instantiation "every emitted block is feasible" which is C03's soundness theorem.""",
-   imports=["Base", "PlaModel", "PlaSpec", "PlaCert", "Greedy", "PlaComplete"],
+   * C04_sequential_optimal / C04_chunked_near_optimal: closed theorems about make_segmentation /
+     make_segmentation_par: at most as many segments as ANY partition of the fed points into
+     eps-feasible blocks (+ par-1 for the chunked driver).
+   Not proved here (DESIGN.md 6.4): the closed-form count bound floor(n/(2eps+1))+c+1 (judged).""",
+   imports=["Base", "PlaModel", "PlaSpec", "PlaCert", "Greedy", "PlaComplete", "PlaSound"],
    entries=[("C04_builder_complete", "PlaComplete.v", "builder_complete"),
             ("C04_segmentation_maximal", "PlaComplete.v", "make_segmentation_chunk_maximal"),
             ("C04_greedy_optimal", "Greedy.v", "feasible_greedy_optimal", "nat"),
             ("C04_chunked_bound", "Greedy.v", "feasible_chunked_greedy_bound", "nat"),
             ("C04_reject_spans", "PlaComplete.v", "builder_reject_spans"),
+            ("C04_sequential_optimal", "PlaSound.v", "make_segmentation_optimal_closed"),
+            ("C04_chunked_near_optimal", "PlaSound.v", "make_segmentation_par_near_optimal_closed"),
             ("C04_cert4_sound", "PlaCert.v", "cert4_b_sound"),
             ("C04_line_ok_sound", "PlaCert.v", "line_ok_b_sound")],
    examples="""(* non-vacuity: a concrete rejection (eps = 1; the fourth point leaves the band of any line) *)
 Example C04_rejection_happens :
   exists s0 s s', pla_init 1 = Ok s0 /\\ feed_all y_size_t s0 [(0,0); (1,1); (2,2)] = Ok s /\\
                   add_point y_size_t s 3 9 = Ok (false, s').
-Proof. eexists; eexists; eexists. repeat split; vm_compute; reflexivity. Qed.
+Proof. eexists; eexists; eexists. split; [vm_compute; reflexivity | split; [vm_compute; reflexivity | vm_compute; reflexivity]]. Qed.
 """),
  "C01": dict(
    header="""   C01 — a present key's first occurrence lies inside the returned range.  PARTIAL (DESIGN.md 6.1):
@@ -80,4 +84,137 @@ Proof. vm_compute. reflexivity. Qed.
    entries=[("C07_route_window_scan", "IndexProofs.v", "route_window_scan"),
             ("C07_route_window_bsearch", "IndexProofs.v", "route_window_bsearch"),
             ("C07_route_pos", "IndexProofs.v", "route_pos_from_feasible_line")]),
+ "C03": dict(
+   header="""   C03 — every constraint point is within epsilon (+1/2 for the rounded intercept) of its segment.
+   Proved for integer keys in exact arithmetic, every eps >= 0, no bound on n or on coordinates
+   (ranks below 2^64-1-eps), sequential and chunked driver with any number of chunks:
+   * C03_feed_all_sound: after any accepted history both extreme lines of the canonical segment stay
+     inside the (clamped) band of EVERY fed point -- the O'Rourke hull invariant, by induction;
+   * C03_reported_line_sound: the line actually reported (slope r3-r1, intercept rounded with the C++
+     truncating division) is within eps + 1/2 of every such point;
+   * C03_segmentation_sound / C03_segmentation_par_sound: the segments emitted by make_segmentation /
+     make_segmentation_par correspond one-to-one, in order, to consecutive non-empty blocks of the fed
+     points (every fed point covered by exactly one segment), each block starting at the segment's first
+     key and lying within eps + 1/2 of the segment's reported line (blocks_ok).
+   NOT proved here: that the fed points contain each distinct key at its first-occurrence rank and
+   that fed abscissae increase (judged on every case through hook H1); floating-point KEYS (the C++
+   then works in long double with rounding) are outside the model.""",
+   imports=["Base", "PlaModel", "PlaSpec", "PlaCert", "Greedy", "PlaComplete", "PlaSound"],
+   entries=[("C03_feed_all_sound", "PlaSound.v", "feed_all_sound"),
+            ("C03_reported_line_sound", "PlaSound.v", "reported_line_sound"),
+            ("C03_feed_all_reported_line", "PlaSound.v", "feed_all_reported_line"),
+            ("C03_segmentation_sound", "PlaSound.v", "make_segmentation_sound"),
+            ("C03_segmentation_par_sound", "PlaSound.v", "make_segmentation_par_sound")],
+   examples="""(* non-vacuity: three accepted points with eps = 1 *)
+Example C03_instance : exists s0 s, pla_init 1 = Ok s0 /\\ feed_all y_size_t s0 [(0,0); (2,1); (5,2)] = Ok s.
+Proof. eexists; eexists. split; [vm_compute; reflexivity | vm_compute; reflexivity]. Qed.
+"""),
+ "C09": dict(
+   header="""   C09 — BucketingPGMIndex: the top-level table always maps a key to a bucket whose segment slice
+   contains the rightmost segment starting at or before the key.  Proved for every unsigned key width,
+   every TopLevelSize (power of two or not), both cell modes, all segment key lists and all keys in
+   [first_key, last_key]:
+   * C09_build_top_level_ok: the table build succeeds under the stated side conditions (no UB shift,
+     cell width large enough);
+   * C09_bucket_index_in_table: the bucket index j and j+1 are inside the table;
+   * C09_bucket_slice_spec: top[j] <= t+1 <= top[j+1] with t the rightmost segment with key <= query;
+   * C09_segment_for_key_spec: the model's segment_for_key returns exactly t (never Err: no read outside
+     the table or the segment array).
+   The search contract itself (range brackets the lower bound) is C01/C02's, on the segments built by
+   PGMIndex::build with EpsilonRecursive = 0; it is judged on every query by the correspondence check.
+   Finding recorded: TopLevelSize = 1 (allowed by the static_assert) never builds (shift by the key
+   width / division by zero) -- BucketTop.build_top_level_tls1; outside the property's quantifier (2..4096).""",
+   imports=["Base", "PlaModel", "GenLeaf", "IndexModel", "VariantsModel", "EfPred", "BucketTop"],
+   entries=[("C09_build_top_level_ok", "@check", "build_top_level_ok"),
+            ("C09_bucket_index_in_table", "@check", "bucket_index_in_table"),
+            ("C09_bucket_slice_spec", "@check", "bucket_slice_spec"),
+            ("C09_segment_for_key_spec", "@check", "bucketing_segment_for_key_spec")]),
+ "C10": dict(
+   header="""   C10 — EliasFanoPGMIndex: the succinct predecessor structure always selects the rightmost segment
+   starting at or before the key.  Proved for EVERY low width wl >= 0 (so for whatever sdsl's get_params
+   chooses), every strictly increasing key list starting at 0 (keys are rebased to the first key) and
+   every query i >= 0, on the statement-by-statement model of pred() (after the fix of the select
+   beyond the population):
+   * C10_ef_pred_spec: pred returns (ub vals i - 1, vals[ub vals i - 1]) -- never an error: no select
+     beyond the number of zeros/ones, no read outside low/high, binary search within its fuel;
+   * C10_ef_pred_rightmost: the same as a rightmost-element characterisation;
+   * C10_ef_values_build: the structure stores exactly the given values.
+   The search contract (estimate, cap, widen) is C01/C02's and is judged per query.""",
+   imports=["Base", "PlaModel", "GenLeaf", "IndexModel", "VariantsModel", "EfPred"],
+   entries=[("C10_ef_pred_spec", "EfPred.v", "ef_pred_spec"),
+            ("C10_ef_pred_no_error", "EfPred.v", "ef_pred_no_error"),
+            ("C10_ef_pred_rightmost", "EfPred.v", "ef_pred_rightmost"),
+            ("C10_ef_values_build", "EfPred.v", "ef_values_build_strict")]),
+ "C11": dict(
+   header="""   C11 — MappedPGMIndex answers multiset queries exactly like the std algorithms.  Proved for every
+   sorted key list (any duplicate structure), every query, and every approximate range that satisfies
+   the index contract range_ok (0 <= lo <= lb <= hi <= n, and lb < hi for present keys -- C01/C02):
+   lower_bound, upper_bound (range search + exponential search past the range + binary search),
+   count and contains return lb, ub, ub - lb and membership.  n < 2^62 for the exponential search's fuel.
+   The axioms listed come from Flocq's definitions inside the index model (mapped_range calls search),
+   not from these proofs.""",
+   imports=["Base", "PlaModel", "GenLeaf", "IndexModel", "MappedModel", "MappedQueries"],
+   entries=[("C11_lower_bound_spec", "@check", "lower_bound_spec"),
+            ("C11_upper_bound_spec", "@check", "upper_bound_spec"),
+            ("C11_count_spec", "@check", "count_spec"),
+            ("C11_contains_spec", "@check", "contains_spec"),
+            ("C11_gallop_spec", "MappedQueries.v", "gallop_spec")]),
+ "C12": dict(
+   header="""   C12 — creating from a range, from a raw key file, and reopening are equivalent.  Proved on the
+   byte-level model of the file layout (header_bytes | n | first_key | levels_offsets | segments | keys):
+   * C12_load_serialize: load (serialize ix keys) returns the same keys and an index equal field by field
+     (slopes compared through their bit patterns) for every well-formed index -- all sizes;
+   * C12_load_serialize_double: full equality, slopes included, for Floating = double;
+   * C12_reopen_from_range: reopening the file written by the range constructor gives the same data,
+     the same file and an equal index;
+   * C12_from_raw_eq_from_range: the raw-file constructor on the raw bytes of the keys IS the range
+     constructor (same state, same file bytes) -- after the fix of the unset first_key.
+   'Reopening never alters the file' is an OS-level fact: checked by the harness (file bytes before/after).""",
+   imports=["Base", "PlaModel", "GenLeaf", "IndexModel", "MappedModel", "MappedFile", "MappedSlopes"],
+   entries=[("C12_load_serialize", "MappedFile.v", "load_serialize"),
+            ("C12_reopen_from_range", "MappedFile.v", "reopen_from_range"),
+            ("C12_from_raw_eq_from_range", "MappedFile.v", "from_raw_raw_file"),
+            ("C12_load_serialize_double", "MappedSlopes.v", "load_serialize_double"),
+            ("C12_slope_ok_finite", "MappedSlopes.v", "slope_ok_finite")]),
+ "C05": dict(
+   header="""   C05 — DynamicPGMIndex: point queries agree with an ordered map after any history.
+   Proved on the statement-by-statement model (DynModel.v) for ALL histories (any bulk-load followed by any
+   finite sequence of insert_or_assign / erase), all configurations (base, buffer_level, index_level) and an
+   abstract per-level index assumed only to satisfy the search contract pgm_contract (C01/C02) and to
+   return the empty index on the empty range:
+   * C05_insert_refines / C05_erase_refines / C05_bulk_refines: each update commutes with the abstraction
+     function abs (newest level first, tombstone = absent);
+   * C05_hist_represents: after any guarded history the state represents the abstract map;
+   * C05_find / C05_count / C05_lower_bound: the query results equal am_find / am_lower_bound on the map;
+   * C05_insert_total / C05_erase_total: operations on valid input never fail (non-vacuity).
+   Side conditions (DynCore.v): ghist = hist + guards (constructor arguments in range, keys < max K,
+   used_levels < 255 before each update); sizes_ok (used_levels * log2(base) <= 63) for totality.""",
+   imports=["Base", "GenLeaf", "DynModel", "DynSpec", "DynCoreLemmas", "DynCoreInv", "DynCoreRefine", "DynCoreQuery", "DynCoreTotal", "DynCoreLB", "DynCore"],
+   entries=[("C05_insert_refines", "@check", "insert_refines"),
+            ("C05_erase_refines", "@check", "erase_refines"),
+            ("C05_bulk_refines", "@check", "bulk_refines"),
+            ("C05_hist_represents", "@check", "hist_represents"),
+            ("C05_find", "@check", "C05_find"),
+            ("C05_count", "@check", "C05_count"),
+            ("C05_lower_bound", "@check", "C05_lower_bound"),
+            ("C05_insert_total", "@check", "insert_total"),
+            ("C05_erase_total", "@check", "erase_total"),
+            ("C05_ghist_is_hist", "@check", "ghist_is_hist")]),
+ "C15": dict(
+   header="""   C15 — DynamicPGMIndex keeps its levels within the LSM invariants after every update.
+   Proved by induction over ALL histories and configurations (same model and side conditions as C05):
+   * C15_ctor / C15_bulk: the constructors establish wf_state;
+   * C15_insert: Inv is preserved by every insert_or_assign / erase (Inv = wf_state + six bookkeeping facts,
+     because wf_state alone is not inductive);
+   * C15_hist: after any guarded history lsm_props holds: every level strictly sorted; buffer within
+     buffer_max; level i within base^i; no data beyond used_levels; every non-empty level at or above the
+     index level owns an index built over exactly its current keys; an emptied level's index is reset.
+   The boolean form inv_b is evaluated on the implementation's dumped private state after every update.""",
+   imports=["Base", "GenLeaf", "DynModel", "DynSpec", "DynCoreLemmas", "DynCoreInv", "DynCoreRefine", "DynCoreQuery", "DynCoreTotal", "DynCoreLB", "DynCore"],
+   entries=[("C15_ctor", "@check", "C15_ctor"),
+            ("C15_bulk", "@check", "C15_bulk"),
+            ("C15_insert", "@check", "C15_insert"),
+            ("C15_Inv_wf", "@check", "Inv_wf"),
+            ("C15_Inv_lsm", "@check", "Inv_lsm"),
+            ("C15_hist", "@check", "C15_hist")]),
 }
